@@ -470,6 +470,12 @@ def execute(mat, ctx):
     ctx.count("c20_combinations")
     wit = {"members": descr}
     items = check_mapping(ctx, C, list(model), "combined", wit, absent=[("nope", "unknown")])
+    # a member is still the registry it was before it was combined with others: keys that only other members hold are absent from it
+    for R, own in zip(members, member_keys):
+        foreign = [k for k in model if k not in own][:4]
+        for k in foreign:
+            ctx.count("c20_members_rechecked_after_combination")
+            check_absent(ctx, R, k, "member-after-combination", wit, "key-of-another-member")
     shared = 0
     for k, it in items.items():
         if it is None:
